@@ -167,6 +167,16 @@ theorem method_elements_compile (I : Iface) (ek : List (List Text × Key)) (vals
     ((gen (app I ek vals)).withMethods M).compiles = true :=
   gen_withMethods_compiles (app I ek vals) facts08_good hwf M hm
 
+/-- **root of a bare response = declared element of the out message.** With the measured serializer
+    (`facts06.bareRootIsSubName`, T1 witness `f() -> Integer` under XmlDocument), the root element of
+    the response of a method that is not wrapped — whether its out message is a class or an
+    uncustomised primitive — is a global element the published set declares. -/
+theorem bare_response_root_declared (hF : facts06.bareRootIsSubName = true) (S : Schema) (M : Methods)
+    (subName typeName : Text)
+    (hm : (∃ k, (subName, k) ∈ M.elems) ∨ (M.prims.lookup subName).isSome = true) :
+    S.declaresRoot M (S.tns, bareRootName facts06 subName typeName) = true :=
+  bare_root_declared facts06 hF S M subName typeName hm
+
 /-! ### member kinds: XmlAttribute, XmlData, xml_choice_group -/
 
 /-- an application whose classes have attribute / data members (build-XML's `IfaceA`) and choice
